@@ -377,6 +377,16 @@ impl From<Upgrades> for UpgradesHandler {
     }
 }
 
+#[cfg(all(feature = "verif", not(any(test, feature = "benchmark"))))]
+impl From<Upgrades> for UpgradesHandler {
+    fn from(upgrades: Upgrades) -> Self {
+        Self {
+            upgrades,
+            cometbft_rpc_addr: String::new(),
+        }
+    }
+}
+
 async fn next_block_height(snapshot: &Snapshot) -> Result<u64> {
     snapshot
         .get_block_height()
